@@ -39,6 +39,7 @@ def build_segments(reqs, cuts):
     stream = ""
     for i, r in enumerate(reqs):
         body = r.get("body", "")
+        stream += r.get("lead", "")   # stray blank lines in front of a request (a client that ends every message with an extra CRLF, twice)
         stream += "%s /c%s/r%d HTTP/%s\r\nHost: h\r\nX-Conn: %s\r\n" % (r.get("method", "GET"), r.get("conn_id", "0"), i, r.get("version", "1.1"), r.get("conn_id", "0"))
         if r.get("conn"):
             stream += "Connection: %s\r\n" % r["conn"]
@@ -140,6 +141,8 @@ def validate(case):
                 raise C.CaseInvalid("body")
             if rq.get("conn") not in (None, "close", "keep-alive"):
                 raise C.CaseInvalid("conn")
+            if rq.get("lead", "") not in ("", "\r\n", "\r\n\r\n", "\r\n\r\n\r\n"):
+                raise C.CaseInvalid("lead")
     if not isinstance(case.get("apps"), list) or not case["apps"]:
         raise C.CaseInvalid("apps")
     for b in case["apps"]:
@@ -212,6 +215,7 @@ def req_strategy():
         "conn": st.sampled_from([None, None, None, "close", "keep-alive"]),
         "body": st.sampled_from(["", "", "abc", "x" * 50]),
         "expect": st.sampled_from([False, False, True, True]),
+        "lead": st.sampled_from(["", "", "", "", "\r\n", "\r\n\r\n"]),
     }).map(lambda r: dict(r, body=r["body"] if r["method"] == "POST" else "", expect=r["expect"] and r["method"] == "POST" and r["version"] == "1.1"))
 
 
@@ -281,7 +285,11 @@ E3 = [{"method": "GET"}, {"method": "POST", "body": "abc", "expect": True}, {"me
 _e3 = expect_cut(E3)[0]
 PB = {"status": "200 OK", "mode": "gen", "chunks": ["ab"] * 4, "declared_cl": 8, "pause_after": 2, "pause_until_rx": 100}
 _RC = [{"method": "GET", "conn": "close"}, {"method": "GET"}]
+_BL = [{"method": "GET"}, {"method": "GET", "lead": "\r\n\r\n"}, {"method": "GET", "lead": "\r\n"}]
 FIXED = [
+    # blank lines between pipelined requests (an empty pseudo-message completes while a real request is queued)
+    {"conns": [{"reqs": _BL, "cuts": []}], "apps": [B8], "adj": {"threads": 2}},
+    {"conns": [{"reqs": _BL, "cuts": [40]}], "apps": [B8, B_SMALL], "adj": {"threads": 3, "channel_request_lookahead": 2}},
     # the response to the first request closes the connection; the second request arrives in a read of its own while the first is still
     # being produced (read-ahead on, the application waits for the client in mid-response): one deviation from the default schedule puts
     # the I/O thread between "is this connection closing?" and the lock while the worker takes the close decision
